@@ -55,3 +55,78 @@ Fixpoint trace (f : option failure) (acts : list action) : list event :=
                   match e with EvReturn => [e] | _ => e :: trace f rest end
       end
   end.
+
+(* ---- the state of a facade object: its attributes, and the stores each function of the class performs
+   (REGENERATED: Gen/FacadeTbl.facade_state_writes, facade_blocksize_get) ---- *)
+Inductive sx := SxParam (x : string) | SxAttr (a : string) | SxOther (src : string).
+
+Definition fstate := list (string * cval).          (* attribute -> value *)
+
+(* value of a stored expression: a parameter of the call, another attribute, or something the model does not follow *)
+Definition sx_eval (st : fstate) (args : list (string * cval)) (e : sx) : option cval :=
+  match e with
+  | SxParam x => lookup x args
+  | SxAttr a => lookup a st
+  | SxOther _ => None
+  end.
+
+(* the stores of one function, in program order; a store the model cannot follow leaves the attribute unknown (removed) *)
+Fixpoint apply_writes (ws : list (string * sx)) (args : list (string * cval)) (st : fstate) : fstate :=
+  match ws with
+  | [] => st
+  | (a, e) :: ws' =>
+      apply_writes ws' args
+        (match sx_eval st args e with
+         | Some v => dict_set st a v
+         | None => filter (fun kv => negb (String.eqb (fst kv) a)) st
+         end)
+  end.
+
+(* what a caller can do to a facade object besides issuing commands *)
+Inductive fop :=
+| FoInit (dev bs : cval)          (* SCSI(dev, blocksize) *)
+| FoCall (dev : cval)             (* s(dev) *)
+| FoSetBlocksize (v : cval)       (* s.blocksize = v *)
+| FoMethod (name : string).       (* any command method *)
+
+Definition writes_of (tbl : list (string * list (string * sx))) (name : string) : list (string * sx) :=
+  match lookup name tbl with Some ws => ws | None => [] end.
+
+Definition fstep (tbl : list (string * list (string * sx))) (st : fstate) (o : fop) : fstate :=
+  match o with
+  | FoInit dev bs => apply_writes (writes_of tbl "__init__") [("dev", dev); ("blocksize", bs)] st
+  | FoCall dev => apply_writes (writes_of tbl "__call__") [("dev", dev)] st
+  | FoSetBlocksize v => apply_writes (writes_of tbl "blocksize.setter") [("value", v)] st
+  | FoMethod name => apply_writes (writes_of tbl name) [] st
+  end.
+
+(* the block size the command methods hand to the constructors (FBlocksize) *)
+Definition blocksize_seen (get : sx) (st : fstate) : option cval := sx_eval st [] get.
+
+(* the specification: the block size is whatever was set last (the constructor's argument if never set) *)
+Fixpoint last_blocksize (cur : option cval) (ops : list fop) : option cval :=
+  match ops with
+  | [] => cur
+  | FoInit _ bs :: r => last_blocksize (Some bs) r
+  | FoSetBlocksize v :: r => last_blocksize (Some v) r
+  | _ :: r => last_blocksize cur r
+  end.
+
+(* decidable side condition on the regenerated stores: the setter and __init__ store their parameter, unmodified, in the
+   attribute the getter returns, and no other function of the class stores to that attribute *)
+Definition stores_param (ws : list (string * sx)) (attr param : string) : bool :=
+  match filter (fun w => String.eqb (fst w) attr) ws with
+  | [(_, SxParam p)] => String.eqb p param
+  | _ => false
+  end.
+Definition no_store (ws : list (string * sx)) (attr : string) : bool :=
+  forallb (fun w => negb (String.eqb (fst w) attr) && negb (String.eqb (fst w) "?")) ws.
+
+Definition blocksize_state_ok (tbl : list (string * list (string * sx))) (get : sx) : bool :=
+  match get with
+  | SxAttr a =>
+      stores_param (writes_of tbl "__init__") a "blocksize" &&
+      stores_param (writes_of tbl "blocksize.setter") a "value" &&
+      forallb (fun e => String.eqb (fst e) "__init__" || String.eqb (fst e) "blocksize.setter" || no_store (snd e) a) tbl
+  | _ => false
+  end.
